@@ -163,6 +163,9 @@ fn scenarios(thorough: bool) -> Vec<Scenario> {
     }
     v
 }
+
+/// the message of the first panic in a child's stderr (loom reports a deadlock by panicking; the process may then abort in a destructor)
+fn first_panic(stderr: &str) -> Option<String> { let mut it = stderr.lines(); while let Some(l) = it.next() { if l.contains("panicked at") { return it.find(|x| !x.trim().is_empty()).map(|x| x.trim().chars().take(300).collect()); } } None }
 fn esc(s: &str) -> String { s.replace('\\', "\\\\").replace('"', "\\\"").replace('\n', "\\n") }
 
 /// child: explores one scenario, writes a JSON result file
@@ -256,7 +259,8 @@ fn main() {
         match text.and_then(|t| serde_json::from_str::<serde_json::Value>(&t).ok()) {
             None if stderr.contains("already borrowed") || stderr.contains("already mutably borrowed") => { notes.push(format!("scenario {} given up: the implementation keeps thread-local state that loom's threads share; not explored", sc.name)); }
             None => { let tail: String = stderr.lines().rev().take(12).collect::<Vec<_>>().into_iter().rev().collect::<Vec<_>>().join(" | ");
-                viols.push(serde_json::json!({"sig": format!("{pid}:lib-schedules:{}:aborted", sc.name), "what": format!("schedule exploration of concurrent library calls died (status {code:?}): {tail}"), "replay": replay})); }
+                let first = first_panic(&stderr).unwrap_or_default(); let kind = if first.starts_with("deadlock") { "deadlock" } else { "aborted" };
+                viols.push(serde_json::json!({"sig": format!("{pid}:lib-schedules:{}:{kind}", sc.name), "what": format!("schedule exploration of concurrent library calls stopped: {first} (child status {code:?}; {tail})"), "replay": replay})); }
             Some(v) => {
                 let n = v["schedules"].as_u64().unwrap_or(0); states += n; evals += n * sc.threads.iter().map(|t| t.len() as u64).sum::<u64>();
                 let oc = v["outcomes"].as_object().cloned().unwrap_or_default();
@@ -275,6 +279,8 @@ fn main() {
             }
         }
     }
+    // C17 is about panics, aborts and hangs only: a wrong result is the business of the property it belongs to
+    if pid == "C17" { viols.retain(|v| { let s = v["sig"].as_str().unwrap_or(""); s.ends_with(":panic") || s.ends_with(":deadlock") || s.ends_with(":aborted") }); }
     let nv = viols.len();
     let part = serde_json::json!({"property": pid, "layer": "libloom", "tier": tier, "seed": 0, "threads": scs.len(), "wall_s": start.elapsed().as_secs_f64(), "sweeps": sweeps, "evaluations": evals, "states": states, "transitions": states, "traces": states,
         "classes": classes, "samples": samples, "violations": viols, "violations_total": nv, "guards": [], "engine_errors": errors, "notes": notes, "extra": {}, "replay_only": only});
